@@ -393,6 +393,20 @@ def _assigned_before(cfg: CFG, nd: Node, attr_text: str) -> bool:
     return False
 
 
+def _scaled(e: ast.AST, name: str) -> bool:
+    """e is `name` up to constant factors / sign."""
+    if isinstance(e, ast.Name):
+        return e.id == name
+    if isinstance(e, ast.UnaryOp) and isinstance(e.op, (ast.USub, ast.UAdd)):
+        return _scaled(e.operand, name)
+    if isinstance(e, ast.BinOp) and isinstance(e.op, ast.Mult):
+        if isinstance(e.left, ast.Constant) or (isinstance(e.left, ast.UnaryOp) and isinstance(e.left.operand, ast.Constant)):
+            return _scaled(e.right, name)
+        if isinstance(e.right, ast.Constant):
+            return _scaled(e.left, name)
+    return False
+
+
 @rule("R-STEP-DEP", floor=8, tier="thorough")
 def r_step_dep(ctx: RuleCtx, col: Collector):
     """Interior-point subproblem: every variable advanced by the line search (x within its bounds, y, z, lam, xsi, eta,
@@ -442,9 +456,9 @@ def r_step_dep(ctx: RuleCtx, col: Collector):
             collect(d)
     lo, hi = bp
     for v, dv, node in pairs:
-        if any(norm(x.right) in (f"{v}-{lo}", f"{hi}-{v}") and norm(x.left) == dv for x in divs):
+        if any(norm(x.right) in (f"{v}-{lo}", f"{hi}-{v}") and _scaled(x.left, dv) for x in divs):
             need = [f"{v}-{lo}", f"{hi}-{v}"]
-            have = [t for t in need if any(norm(x.right) == t and norm(x.left) == dv for x in divs)]
+            have = [t for t in need if any(norm(x.right) == t and _scaled(x.left, dv) for x in divs)]
             if len(have) == 2:
                 col.ok(where_of(g), g.rel, line_of(node), f"step length bounded by {dv}/({v}-{lo}) and {dv}/({hi}-{v})", "")
             else:
@@ -452,7 +466,7 @@ def r_step_dep(ctx: RuleCtx, col: Collector):
                         f"the step length does not depend on {sorted(set(need) - set(have))}: the iterate can step across "
                         f"that bound and leave the admissible interval")
             continue
-        if any(norm(x.right) == v and norm(x.left) == dv for x in divs):
+        if any(norm(x.right) == v and _scaled(x.left, dv) for x in divs):
             col.ok(where_of(g), g.rel, line_of(node), f"step length bounded by {dv}/{v}", "")
         else:
             col.bad(where_of(g), g.rel, line_of(node), f"step length bounded by {dv}/{v}",
